@@ -438,12 +438,12 @@ def main(tier):
     rep.trusted = ['clang 14 IR + opt sroa', 'tools/llir.py provenance (unknown provenance is reported, not assumed local)', 'nasm/objdump decoding', 'ASMFLOW / FACTS interpreters']
     mod = llir.library('default')
     RC = check_c(rep, mod)
-    check_asm(rep, RC, mod)
-    check_init(rep, mod)
-    check_upward_exposed(rep, mod)
-    check_upward_exposed_deflate(rep, mod)
-    check_scratch_clear(rep, mod)
+    rep.attempt(check_asm, rep, RC, mod)
+    rep.attempt(check_init, rep, mod)
+    rep.attempt(check_upward_exposed, rep, mod)
+    rep.attempt(check_upward_exposed_deflate, rep, mod)
+    rep.attempt(check_scratch_clear, rep, mod)
     import c17
-    c17.check_hash_clear(rep, mod)
-    provenance.check_undef(rep, None, 'ALL', 130)
+    rep.attempt(c17.check_hash_clear, rep, mod)
+    rep.attempt(provenance.check_undef, rep, None, 'ALL', 130)
     return rep.finish()
